@@ -75,7 +75,13 @@ pub fn strategy() -> impl Strategy<Value = Case> {
                     seq_args.push("s1".to_string());
                 }
             }
-            let cmd_args = names[nseq..].to_vec();
+            let mut cmd_args = names[nseq..].to_vec();
+            // a command may be asked for more than once (a step shared by two sequences, or a
+            // sequence step given again with -c); it then runs at each of its places
+            if ncmd >= 2 && split % 3 == 0 {
+                let again = names[pick(split.rotate_left(3), ncmd - 1)].clone();
+                cmd_args.push(again);
+            }
             let mut chosen: Vec<String> = picks.iter().map(|&p| config.targets[pick(p, n)].path.clone()).collect();
             chosen.sort();
             chosen.dedup();
@@ -258,14 +264,34 @@ pub fn check(case: &Case, w: usize) -> CheckResult {
         );
     }
     let traces = env.traces();
-    let mut tr: BTreeMap<(String, String), (u128, u128)> = BTreeMap::new();
+    // a repeated command has one trace per occurrence: the i-th start belongs to the i-th place
+    let mut per_key: BTreeMap<(String, String), Vec<(u128, u128)>> = BTreeMap::new();
     for t in &traces {
         let k = bb::trace_key(&env, t);
         let Some(end) = t.end_ns else {
             return inconclusive("helper without end record".into());
         };
-        if tr.insert(k.clone(), (t.start_ns, end)).is_some() {
-            return viol("c04.started.twice", format!("{:?} was started twice", k));
+        per_key.entry(k).or_default().push((t.start_ns, end));
+    }
+    let mut occ_of: Vec<(String, usize)> = vec![];
+    let mut seen_count: BTreeMap<String, usize> = BTreeMap::new();
+    for c in &want_cmds {
+        let e = seen_count.entry(c.clone()).or_insert(0);
+        occ_of.push((c.clone(), *e));
+        *e += 1;
+    }
+    let mut tr: BTreeMap<(usize, String), (u128, u128)> = BTreeMap::new(); // (place in the command list, target)
+    for ((cmd, target), mut v) in per_key {
+        v.sort();
+        let places: Vec<usize> = occ_of.iter().enumerate().filter(|(_, o)| o.0 == cmd).map(|(i, _)| i).collect();
+        if v.len() > places.len() {
+            return viol("c04.started.twice", format!("({}, {}) was started {} times for {} places in the command list", cmd, target, v.len(), places.len()));
+        }
+        if v.len() < places.len() {
+            return viol("c04.repeated.command.dropped", format!("({}, {}) was started {} times although the command is listed {} times", cmd, target, v.len(), places.len()));
+        }
+        for (iv, place) in v.into_iter().zip(places) {
+            tr.insert((place, target.clone()), iv);
         }
     }
     let in_run: BTreeSet<String> = run
@@ -274,13 +300,13 @@ pub fn check(case: &Case, w: usize) -> CheckResult {
         .map(|r| r.1.iter().flat_map(|g| g.keys().cloned()).collect())
         .unwrap_or_default();
     let mut slow_dep_pair = false;
-    for c in &want_cmds {
+    for (place, c) in want_cmds.iter().enumerate() {
         for t in cfg.targets.iter().filter(|t| in_run.contains(&t.path)) {
             for u in cfg.targets.iter().filter(|u| in_run.contains(&u.path)) {
                 if !model::dep(t, u) {
                     continue;
                 }
-                let (Some(tt), Some(tu)) = (tr.get(&(c.clone(), t.path.clone())), tr.get(&(c.clone(), u.path.clone()))) else {
+                let (Some(tt), Some(tu)) = (tr.get(&(place, t.path.clone())), tr.get(&(place, u.path.clone()))) else {
                     continue;
                 };
                 if tt.0 < tu.1 {
@@ -302,9 +328,9 @@ pub fn check(case: &Case, w: usize) -> CheckResult {
         }
     }
     let mut earlier_slower = false;
-    for win in want_cmds.windows(2) {
-        let prev_end = tr.iter().filter(|(k, _)| k.0 == win[0]).map(|(_, v)| v.1).max();
-        let next_start = tr.iter().filter(|(k, _)| k.0 == win[1]).map(|(_, v)| v.0).min();
+    for (place, win) in want_cmds.windows(2).enumerate() {
+        let prev_end = tr.iter().filter(|(k, _)| k.0 == place).map(|(_, v)| v.1).max();
+        let next_start = tr.iter().filter(|(k, _)| k.0 == place + 1).map(|(_, v)| v.0).min();
         if let (Some(pe), Some(ns)) = (prev_end, next_start) {
             if ns < pe {
                 return viol_obs(
@@ -331,6 +357,7 @@ pub fn check(case: &Case, w: usize) -> CheckResult {
         .class_if(slow_dep_pair, "slow-dependency-pair")
         .class_if(earlier_slower, "earlier-command-slower")
         .class_if(!case.seq_args.is_empty() && !case.cmd_args.is_empty(), "sequences+commands")
+        .class_if(seen_count.values().any(|&n| n > 1), "repeated-command")
         .class_if(in_run.is_empty(), "empty-run")
         .class_if(in_run.len() > 32, "targets>32")
         .class_if(in_run.len() > 64, "targets>64")
@@ -338,7 +365,7 @@ pub fn check(case: &Case, w: usize) -> CheckResult {
 }
 
 pub fn run(ctx: &mut Ctx) {
-    ctx.rule = "acyclic configuration (<=10 targets; plus a size-boundary mode with one layer of 12-70 (thorough: 130) independent targets, biased to 28-40 and 60-70, below 1-3 dependents) x selection mode (all / changed / -t --deps) x 1-4 commands split over -s sequences and -c \
+    ctx.rule = "acyclic configuration (<=10 targets; plus a size-boundary mode with one layer of 12-70 (thorough: 130) independent targets, biased to 28-40 and 60-70, below 1-3 dependents) x selection mode (all / changed / -t --deps) x 1-4 commands split over -s sequences and -c (one of them may be listed a second time) \
 x run-time assignment (zero / random / dependencies slower than dependents / earlier command slower); all helpers exit 0. oracle over helper traces \
 (CLOCK_MONOTONIC): start(T,c) >= end(U,c) for every dep(T,U) in the run, min start(c[i+1]) >= max end(c[i]), result command order == documented order. \
 non-trivial = a dependency pair whose dependency sleeps longer than its dependent, or two consecutive commands with the earlier one slower; distinct by SHA-256"
